@@ -1,4 +1,4 @@
-"""C16 Result objects report what the sampler produced (save/load round trips are outside the solver's reach)."""
+"""C16 Result objects report what the sampler produced, and hand exactly that to the serialisers when saved."""
 import itertools
 from fractions import Fraction
 
@@ -17,14 +17,20 @@ PROPERTY = 'C16'
 EXPLANATION = ('Sample (samples_array, sample_means, sample_means_and_95CIs, sample_quantiles, n_samples, dim, discrepancies), '
                'BolfiSample.__init__, gelman_rubin_statistic and eff_sample_size run on symbolic outputs / weights / chains; warm-up '
                'length, parameter order, affine maps and chain permutations are symbolic or solver-chosen; the FFT pair used by '
-               'eff_sample_size is replaced by its algebraic contract (zero-padded autocorrelation sums).')
+               'eff_sample_size is replaced by its algebraic contract (zero-padded autocorrelation sums).  Sample.save (csv, json, '
+               'pkl) runs for Sample, SmcSample and BolfiSample objects with symbolic contents against recording serialisers.')
 ASSUMPTIONS = [
     'exact reals; weights >= 0 with positive sum',
     'numpy.fft: irfft(|rfft(x, N)|^2)[k] = sum_t x_t x_{t+k} for N >= 2 len(x) (Wiener-Khinchin with zero padding)',
     'diagnostics: within-chain variance non-zero (otherwise the statistics divide by zero)',
+    'saving: json.dumps writes dict/list/str/int/float/None so that json.loads returns equal values (finite floats round-trip '
+    'through repr); csv.writer writes str() of each cell; pickle rebuilds an equal, unshared object graph through '
+    '__getstate__/__setstate__ (these three contracts replace the C serialisers on symbolic paths)',
 ]
-OUTSIDE = ['Sample.save / load round trips through pickle, JSON and CSV: float formatting, json and pickle are C code that cannot be '
-           'executed symbolically (this clause of the property is not claimed)', 'arviz conversion', 'chains longer than the bound']
+OUTSIDE = ['the text produced by json / csv / pickle themselves (C code): the symbolic claim is about the exact data handed to them '
+           'by the real Sample.save / sample_object_to_dict / numpy_to_python_type / __getstate__ / __setstate__ code; the real '
+           'serialisers are only run on the concrete witnesses and replays (text round trip compared there)',
+           'multivariate parameters in csv', 'arviz conversion', 'chains longer than the bound']
 
 
 def env(ctx):
@@ -97,6 +103,203 @@ def h_bolfi_sample(ctx, c, n, p):
                   And(*[close(col[ci * keep + i], chains[ci][wv + i][j]) for ci in range(c) for i in range(keep)]))
     ctx.claim('chains_kept_with_warmup', np.shape(s.chains) == (c, n, p) and s.n_chains == c)
     ctx.claim('input_not_aliased', s.chains is not arr)
+
+
+# ---------------------------------------------------------------- saving
+
+class Recorder:
+    """Stands for the serialisers: records what Sample.save hands to json.dumps / csv.writer / pickle.dump."""
+
+    def __init__(self):
+        self.json = []
+        self.csv_rows = []
+        self.pickled = []
+        self.opened = []
+        self.written = []
+
+    # open()
+    def open(self, fname, mode='r', **kw):
+        rec = self
+        rec.opened.append((fname, mode))
+
+        class F:
+            def __enter__(s):
+                return s
+
+            def __exit__(s, *a):
+                return False
+
+            def write(s, data):
+                rec.written.append(data)
+        return F()
+
+    def dumps(self, data, **kw):
+        self.json.append(data)
+        return '<json %d>' % (len(self.json) - 1)
+
+    def writer(self, f, **kw):
+        rec = self
+
+        class W:
+            def writerow(s, row):
+                rec.csv_rows.append(list(row))
+
+            def writerows(s, rows):
+                for r in rows:
+                    rec.csv_rows.append(list(r))
+        return W()
+
+    def dump(self, obj, f, protocol=None):
+        self.pickled.append(obj)
+
+
+def save_env(ctx, rec):
+    import json
+    import csv
+    import pickle
+    b = std_bindings([mres, mu], shadow_builtins=False)
+    b.append((mres, {'open': rec.open}))
+    b.append((json, {'dumps': rec.dumps}))
+    b.append((csv, {'writer': rec.writer}))
+    b.append((pickle, {'dump': rec.dump}))
+    return patched(b)
+
+
+def json_native(ctx, v):
+    """Only what json can write: dict with str keys / list / str / int / float / bool / None (a proxy stands for a float)."""
+    if core.is_sym(v):
+        return True
+    if isinstance(v, dict):
+        return all(isinstance(k, str) and json_native(ctx, x) for k, x in v.items())
+    if isinstance(v, (list, tuple)):
+        return all(json_native(ctx, x) for x in v)
+    if isinstance(v, (np.ndarray, np.integer)):
+        return False
+    return v is None or isinstance(v, (str, int, float, bool, Fraction))
+
+
+def same_seq(a, b):
+    a, b = list(a), list(b)
+    return len(a) == len(b) and And(*[close(x, y, 0) for x, y in zip(a, b)])
+
+
+def restore(v):
+    """pickle's contract: an equal object graph that shares nothing with the original."""
+    from collections import OrderedDict
+    if isinstance(v, np.ndarray):
+        return v.copy()
+    if isinstance(v, OrderedDict):
+        return OrderedDict((k, restore(x)) for k, x in v.items())
+    if isinstance(v, dict):
+        return {k: restore(x) for k, x in v.items()}
+    if isinstance(v, list):
+        return [restore(x) for x in v]
+    if isinstance(v, tuple):
+        return tuple(restore(x) for x in v)
+    if isinstance(v, mres.ParameterInferenceResult):
+        new = type(v).__new__(type(v))
+        new.__setstate__(restore(v.__getstate__()))
+        return new
+    return v
+
+
+def h_save(ctx, n, kind, cls='sample', n_params=2):
+    names = ['b', 'a', 'c']
+    perms = list(itertools.permutations(names))
+    pnames = list(perms[ctx.choice('param_order', len(perms))])[:n_params]
+    vals = {k: [ctx.real('%s%d' % (k, i)) for i in range(n)] for k in names + ['d']}
+    ws = [ctx.real('w%d' % i, 0, None) for i in range(n)]
+    thr = ctx.real('threshold')
+    rec = Recorder()
+
+    def mk(v, w, **kw):
+        return dict(method_name='m', outputs={k: ctx.array(x) for k, x in v.items()}, parameter_names=list(pnames),
+                    discrepancy_name='d', weights=ctx.array(w), n_sim=10 * n, threshold=thr, **kw)
+    pops_vals = []
+    with save_env(ctx, rec):
+        if cls == 'sample':
+            s = mres.Sample(**mk(vals, ws))
+        elif cls == 'smc':
+            pops = []
+            for r in range(2):
+                pv = {k: [ctx.real('pop%d_%s%d' % (r, k, i)) for i in range(n)] for k in names + ['d']}
+                pw = [ctx.real('pop%d_w%d' % (r, i), 0, None) for i in range(n)]
+                pops_vals.append((pv, pw))
+                pops.append(mres.Sample(**mk(pv, pw)))
+            s = mres.SmcSample(populations=pops, **mk(vals, ws))
+        elif cls == 'bolfi':
+            chains = [[[vals[k][i] for k in pnames] for i in range(n)] for _ in range(1)]
+            s = mres.BolfiSample(method_name='BOLFI', chains=ctx.array(chains), parameter_names=list(pnames), warmup=0,
+                                 threshold=thr, n_sim=10 * n)
+        s.save('result.' + kind)
+    ctx.claim('one_file_opened_for_writing', len(rec.opened) == 1 and rec.opened[0][0] == 'result.' + kind and
+              rec.opened[0][1][0] == 'w')
+    if kind == 'csv':
+        rows = rec.csv_rows
+        ctx.claim('csv_header_is_parameter_names_in_order', len(rows) >= 1 and list(rows[0]) == pnames)
+        ctx.claim('csv_one_row_per_sample', len(rows) == n + 1)
+        for i in range(min(n, len(rows) - 1)):
+            ctx.claim('csv_row%d_is_sample_%d_in_parameter_order' % (i, i), same_seq(rows[i + 1], [vals[k][i] for k in pnames]))
+        if not ctx.symbolic:
+            # the real writer and reader on the recorded rows: text round trip
+            import csv
+            import io
+            buf = io.StringIO()
+            csv.writer(buf).writerows(rows)
+            back = list(csv.reader(io.StringIO(buf.getvalue())))
+            ctx.claim('csv_text_reads_back_to_the_same_numbers', back[0] == pnames and all(
+                [float(c) for c in back[i + 1]] == [float(vals[k][i]) for k in pnames] for i in range(n)))
+    elif kind == 'json':
+        ctx.claim('one_document_written', len(rec.json) == 1 and rec.written == ['<json 0>'])
+        data = rec.json[0] if rec.json else {}
+        ctx.claim('json_document_holds_only_json_types', json_native(ctx, data))
+        smp = data.get('samples', {})
+        ctx.claim('json_samples_keys_are_parameter_names_in_order', list(smp.keys()) == pnames)
+        for k in pnames:
+            ctx.claim('json_samples_%s_are_the_stored_samples' % k, k in smp and same_seq(smp[k], vals[k]))
+        if cls != 'bolfi':
+            ctx.claim('json_discrepancies', same_seq(data.get('discrepancies', []), vals['d']))
+            ctx.claim('json_weights', same_seq(data.get('weights', []), ws))
+        ctx.claim('json_counts', data.get('n_samples') == n and data.get('dim') == len(pnames) and data.get('n_sim') == 10 * n)
+        ctx.claim('json_threshold', 'threshold' in data and close(data['threshold'], thr, 0))
+        ctx.claim('json_names', data.get('parameter_names') == pnames and data.get('method_name') == s.method_name)
+        ctx.claim('json_outputs_not_duplicated', 'outputs' not in data)
+        if cls == 'smc':
+            pd = data.get('populations', {})
+            ctx.claim('json_population_keys', list(pd.keys()) == ['A', 'B'])
+            for key, (pv, pw) in zip(['A', 'B'], pops_vals):
+                d = pd.get(key, {})
+                for k in pnames:
+                    ctx.claim('json_population_%s_samples_%s' % (key, k), same_seq(d.get('samples', {}).get(k, []), pv[k]))
+                ctx.claim('json_population_%s_weights' % key, same_seq(d.get('weights', []), pw))
+                ctx.claim('json_population_%s_sample_keys' % key, list(d.get('samples', {}).keys()) == pnames)
+        if cls == 'bolfi':
+            ctx.claim('json_chains', np.shape(np.asarray(data.get('chains'), dtype=object)) == (1, n, len(pnames)) and And(
+                *[close(data['chains'][0][i][j], vals[k][i], 0) for i in range(n) for j, k in enumerate(pnames)]))
+        if not ctx.symbolic:
+            import json
+            back = json.loads(json.JSONEncoder().encode(data))
+            ctx.claim('json_text_reads_back_to_the_same_samples', list(back['samples'].keys()) == pnames and all(
+                back['samples'][k] == [float(x) for x in vals[k]] for k in pnames))
+    elif kind == 'pkl':
+        ctx.claim('the_object_itself_is_pickled', len(rec.pickled) == 1 and rec.pickled[0] is s)
+        new = restore(s)
+        ctx.claim('restored_has_parameter_names', new.parameter_names == pnames and list(new.samples.keys()) == pnames)
+        for k in pnames:
+            ctx.claim('restored_samples_%s' % k, same_seq(new.samples[k], vals[k]) and new.samples[k] is not s.samples[k])
+        ctx.claim('restored_weights_and_discrepancies', same_seq(new.weights, ws) and same_seq(new.discrepancies, vals['d']))
+        ctx.claim('restored_meta', new.n_sim == 10 * n and close(new.threshold, thr, 0) and new.method_name == 'm')
+        with env(ctx):
+            ctx.claim('restored_array_equals', same_seq(np.asarray(new.samples_array).reshape(-1),
+                                                        np.asarray(s.samples_array).reshape(-1)))
+        if cls == 'smc':
+            ctx.claim('restored_populations', len(new.populations) == 2 and all(
+                same_seq(new.populations[r].samples[k], pops_vals[r][0][k]) for r in range(2) for k in pnames))
+        if not ctx.symbolic:
+            import pickle
+            back = pickle.loads(pickle.dumps(s, pickle.HIGHEST_PROTOCOL))
+            ctx.claim('real_pickle_round_trip', list(back.samples.keys()) == pnames and all(
+                list(back.samples[k]) == list(s.samples[k]) for k in pnames) and back.n_sim == s.n_sim)
 
 
 # ---------------------------------------------------------------- diagnostics
@@ -248,13 +451,27 @@ HARNESSES = [
     H('ess_formula_c2_n4', h_ess, dict(c=2, n=4, what='formula'), bounds='ESS formula, 2 chains of 4', tiers=('thorough',)),
 ]
 
+HARNESSES += [
+    H('save_csv_n3', h_save, dict(n=3, kind='csv'), bounds='Sample with 2 of 3 parameters in any order, 3 samples, csv'),
+    H('save_json_n3', h_save, dict(n=3, kind='json'), bounds='Sample, 3 samples, weights, meta, json'),
+    H('save_pkl_n3', h_save, dict(n=3, kind='pkl'), bounds='Sample, 3 samples, __getstate__/__setstate__'),
+    H('save_json_smc_n2', h_save, dict(n=2, kind='json', cls='smc'), bounds='SmcSample with 2 populations of 2, json'),
+    H('save_pkl_smc_n2', h_save, dict(n=2, kind='pkl', cls='smc'), bounds='SmcSample with 2 populations of 2, pickle state'),
+    H('save_json_bolfi_n2', h_save, dict(n=2, kind='json', cls='bolfi'), bounds='BolfiSample 1 chain of 2, json'),
+    H('save_csv_bolfi_n3_p3', h_save, dict(n=3, kind='csv', cls='bolfi', n_params=3), bounds='BolfiSample 1 chain of 3, 3 parameters, csv',
+      tiers=('thorough',)),
+    H('save_csv_n4_p3', h_save, dict(n=4, kind='csv', n_params=3), bounds='Sample, 3 parameters, 4 samples, csv', tiers=('thorough',)),
+    H('save_json_n4_p3', h_save, dict(n=4, kind='json', n_params=3), bounds='Sample, 3 parameters, 4 samples, json', tiers=('thorough',)),
+]
+
 MANIFEST = {
     'level_text': 'Bounded symbolic execution of the real result and diagnostic code: columns follow parameter_names, means are the '
                   'weighted averages and interval ends / quantiles satisfy the weighted-quantile definition on exactly the stored '
                   'values; BolfiSample rows are the chains with exactly the warm-up prefix removed, chain by chain, for every '
                   'warm-up length; split R-hat and ESS equal their textbook formulas and are invariant under affine maps and chain '
-                  'reordering (non-linear real arithmetic validity queries).',
-    'level_note': 'n <= 3 samples, <= 3 chains of <= 4..5 draws; FFT replaced by its correlation contract; the save/load clause of '
-                  'the property (pickle/JSON/CSV) is NOT claimed: those paths are C code that cannot be executed symbolically. '
-                  'z3 trusted.',
+                  'reordering (non-linear real arithmetic validity queries).  Saving: the csv rows, the json document and the '
+                  'pickled state handed over by the real save code contain term-for-term the stored samples (weights, '
+                  'discrepancies, threshold, populations, chains) in parameter order and only json-native types.',
+    'level_note': 'n <= 3 samples, <= 3 chains of <= 4..5 draws; FFT replaced by its correlation contract; json/csv/pickle are replaced '
+                  'by their contracts on symbolic paths (the real ones run on every concrete witness and replay); z3 trusted.',
 }
